@@ -103,6 +103,11 @@ def deep_chain(depth, with_missing):
 
 # programs with a hand-derived answer (the search order applied by hand); also compared with PanCore
 EXPECT = [
+    # every receiver of a list chain is looked up along ITS OWN chain: a sibling without own properties after one that shadows the name
+    ("siblings_in_list_chain", "P := {x: 0, f: m{.x}}\n[P.bear({x: 1}), P.bear]@x.p\n[P.bear, P.bear({x: 1})]@x.p\n[P.bear({x: 1}), P.bear, P.bear({x: 2}), P.bear]@x.p\n"
+     "[P.bear({f: m{9}}), P.bear, P.bear({x: 4})]@f.p\na := P.bear({x: 5})\n[a, a.bro({}), a]@x.p\n[P.bear({x: 1}), P.bear]=@x.p\n[P.bear({x: 1}), P.bear]&@x.p\n"
+     "[P.bear({x: 1}), P.bear]~@x.p\n[P.bear({x: 1}), P.bear]@{|o| o.x}.p\n",
+     "[1, 0]\n[0, 1]\n[1, 0, 2, 0]\n[9, 0, 4]\n[5, 0, 5]\n[1, 0]\n[1, 0]\n[1, 0]\n[1, 0]\n"),
     # own public names only; private ones exactly when the keyword is true (also when the flag is forwarded through a variable)
     ("keys_private_flag", 'parent := {name: "parent", _secret: 1}\nchild := parent.bear({age: 3, _id: 42, _missing: m{|n| "missing #{n}"}})\n'
      "[child.keys, child.keys(private?: true), child.keys(private?: false), child.values(private?: false), child.items(private?: false)].p\n"
@@ -265,5 +270,6 @@ def main(chk):
     for i in (0, len(progs) // 2, len(progs) - 1):
         chk.sample({"program": progs[i], "expected": meta[i][1], "impl": {k: res[i]["impl"].get(k) for k in ("kind", "repr", "errk")},
                     "model_verdict": res[i]["verdict"]})
+    chk.cov["rule"] += " Added after seeded round 5: `private?:` with non-true and forwarded values, a `_missing` that reads another absent name and absent names after a caught error, siblings without own properties after a sibling that shadows the name in a list chain."
     return pancore.conclude(chk, ok, broken, "Props/C05.v", res, viol, model_only, "C05",
                             "Core.Values.find_prop / Core.Interp.eval_prop vs object/findprop.go, evaluator/eval_propcall.go, native/Obj.pangaea")
